@@ -29,6 +29,8 @@ unsafe impl Send for Cell {}
 unsafe impl Sync for Cell {}
 
 static TABLE: Mutex<Option<HashMap<usize, Arc<Cell>>>> = Mutex::new(None);
+/// which loom thread freed the storage in this execution
+static FREED_BY: Mutex<Option<String>> = Mutex::new(None);
 /// freed in this execution, really released by `finish`
 static QUARANTINE: Mutex<Vec<(usize, Layout)>> = Mutex::new(Vec::new());
 
@@ -41,6 +43,11 @@ fn table<R>(f: impl FnOnce(&mut HashMap<usize, Arc<Cell>>) -> R) -> R {
 pub fn reset() {
     table(|t| t.clear());
     QUARANTINE.lock().unwrap_or_else(|e| e.into_inner()).clear();
+    *FREED_BY.lock().unwrap_or_else(|e| e.into_inner()) = None;
+}
+
+pub fn freed_by() -> Option<String> {
+    FREED_BY.lock().unwrap_or_else(|e| e.into_inner()).clone()
 }
 
 /// End of a loom execution (every thread joined): release the quarantined storage for real.
@@ -82,6 +89,8 @@ pub unsafe fn dealloc(ptr: *mut u8, layout: Layout) {
     // tracked write: must happen-after every tracked read
     cell.0.with_mut(|_| ());
     QUARANTINE.lock().unwrap_or_else(|e| e.into_inner()).push((ptr as usize, layout));
+    stats::event("frees the text storage");
+    *FREED_BY.lock().unwrap_or_else(|e| e.into_inner()) = Some(format!("{:?}", loom::thread::current().id()));
 }
 
 /// Inserted at the top of `ArcStr::as_ref`.
